@@ -289,7 +289,7 @@ struct Counters
     std::map<std::string, uint64_t> m;
     void add(const std::string &k, uint64_t n = 1) { m[k] += n; }
 };
-static inline Counters &counters()
+inline Counters &counters() // (one instance per program: probes fired in any harness translation unit are reported)
 {
     static Counters c;
     return c;
